@@ -26,6 +26,8 @@ def main():
         subprocess.run(["git", "-C", "/repo", "checkout", "--", "."], check=True)
         st = subprocess.run(["git", "-C", "/repo", "status", "--porcelain"], capture_output=True, text=True).stdout.strip()
         print("repo restored, status:", repr(st))
+        # the checks regenerated lean/Gecs/Gen/* from the PATCHED sources: bring the tracked copies back to the clean tree
+        subprocess.run([sys.executable, "/verif/tools/extract.py"], capture_output=True, text=True)
     print(json.dumps(out))
     return 0
 
